@@ -3,6 +3,7 @@
 package bill
 
 import (
+	"github.com/invopop/gobl/cal"
 	"github.com/invopop/gobl/cbc"
 	"github.com/invopop/gobl/currency"
 	"github.com/invopop/gobl/internal/vrt"
@@ -230,3 +231,69 @@ func H_C01_ItemPrice() {
 }
 
 var _ = cbc.Code("")
+
+// H_C01_Pipeline: the whole calculation under the 'precise' rule against exact rational arithmetic: every presented
+// document total (sum, total, tax, total with tax, payable) is less than one minor unit away from the exact value
+// computed over the inputs with no intermediate rounding. Skeleton: 1-2 lines, price symbolic with 2 or 4
+// decimals, quantity from a covering set, optional 10 % line discount, optional 5 % document discount, VAT 21 %.
+// Exact values are kept as integers over the common denominator D = 10^6 * 10 * 20 * 100.
+func H_C01_Pipeline() {
+	cur := currency.Code("EUR")
+	nl := 1 + vrt.Choice("nlines", 2)
+	inv := &Invoice{Currency: cur, IssueDate: cal.MakeDate(2024, 3, 1), Tax: &Tax{Rounding: tax.RoundingRulePrecise}}
+	var exactSum int64 // line totals, denominator 10^6 * 10
+	for k := 0; k < nl; k++ {
+		name := "l" + string(rune('0'+k))
+		pexp, qexp := uint32(2), uint32(0)
+		qvals := []int64{3, -2}
+		if k == 0 || vrt.Thorough() { // quick: the second line has a plain price and a whole quantity
+			pexp = uint32(2 + 2*vrt.Choice(name+".pexp", 2))
+			qexp = uint32(2 * vrt.Choice(name+".qexp", 2))
+			qvals = []int64{3, -2, 7}
+		}
+		p := vrt.Int64In(name+".price", -1000000, 1000000)
+		q := qvals[vrt.Choice(name+".qty", len(qvals))]
+		if qexp == 2 {
+			q = q*100 + 50
+		}
+		price := num.MakeAmount(p, pexp)
+		p21 := skP21
+		l := &Line{Quantity: num.MakeAmount(q, qexp), Item: &org.Item{Name: "x", Price: &price}, Taxes: tax.Set{{Category: "VAT", Percent: &p21}}}
+		keep := int64(10)
+		if vrt.Choice(name+".disc", 2) == 1 {
+			d := num.MakePercentage(100, 3) // 10 %
+			l.Discounts = []*LineDiscount{{Percent: &d}}
+			keep = 9
+		}
+		inv.Lines = append(inv.Lines, l)
+		exactSum += p * q * c01Pow10[6-pexp-qexp] * keep
+	}
+	docKeep := int64(20)
+	if vrt.Choice("doc.disc", 2) == 1 {
+		d := skP5
+		p21 := skP21
+		inv.Discounts = []*Discount{{Percent: &d, Taxes: tax.Set{{Category: "VAT", Percent: &p21}}}}
+		docKeep = 19
+	}
+	if err := calculate(inv); err != nil {
+		vrt.Assert(false, "calculates")
+		return
+	}
+	t := inv.Totals
+	vrt.Assert(t != nil, "totals-present")
+	if t == nil {
+		return
+	}
+	const unit = int64(200000000) // one minor unit (1/100) over the denominator 10^6 * 10 * 20 * 100
+	exactTotal := exactSum * docKeep // denominator 10^6 * 10 * 20
+	near := func(presented num.Amount, exact int64, what string) {
+		vrt.Assert(presented.Exp() == 2, what+"-at-currency-precision")
+		diff := presented.Value()*unit - exact
+		vrt.Assert(vrt.And(diff < unit, diff > -unit), what+"-within-one-minor-unit-of-the-exact-value")
+	}
+	near(t.Sum, exactSum*20*100, "sum")
+	near(t.Total, exactTotal*100, "total")
+	near(t.Tax, exactTotal*21, "tax")
+	near(t.TotalWithTax, exactTotal*121, "total-with-tax")
+	near(t.Payable, exactTotal*121, "payable")
+}
